@@ -34,6 +34,12 @@ def c41_runs(tier):
     sba(dict(sz=256, warm=3, t1='a', t2='a'), 1 if q else 2, budget=120)
     sba(dict(sz=256, t0='a', t1='a', t2='b'), 1 if q else 2, budget=120)
     sba(dict(sz=256, t0='sjAAAA', h='a'), 1)
+    # a second thread exhausting the first thread's slab (3 x kIdeal blocks from the central store, then a slab of its
+    # own) while the first is still inside / just out of grabFromCentralStore. The window after the slab lock is
+    # released contains no atomic operation, so what the first thread does there cannot be interleaved by the
+    # scheduler: the TSan run is what sees state shared across that unlock
+    sba(dict(sz=256, t0='a', t1='AAAA'), 1, budget=60)
+    sba(dict(sz=256, t0='a', t1='AAAA'), 0, mode='tsan', budget=90)
     if not q:
         sba(dict(sz=256, t0='sAAA', h='a', t1='a'), 1, budget=240)
     # other block sizes (bigger slabs = longer executions) and the alignedMalloc path
